@@ -760,8 +760,15 @@ func (s *State) applyFunction(name string, fn object.Object, args []object.Objec
 	curState := s.env
 	s.env = nenv
 	oldOut := s.Out
-	buf := bytes.Buffer{}
-	s.Out = &buf
+	// One capture buffer for a whole chain of nested calls: a nested call appends to the buffer of its caller and what
+	// it printed is what it appended. (A buffer per call, copied into the caller's when the call returns, made the
+	// time and memory of a deep recursion that prints quadratic in the depth - also while unwinding after the deadline.)
+	buf, nested := oldOut.(*captureBuffer)
+	if !nested {
+		buf = &captureBuffer{}
+	}
+	start := buf.Len()
+	s.Out = buf
 	// This is 0 as the env is new, but... we just want to make sure there is
 	// no get() up stack to confirm the function might be cacheable.
 	before := s.env.GetMisses()
@@ -772,13 +779,13 @@ func (s *State) applyFunction(name string, fn object.Object, args []object.Objec
 	s.env = curState
 	s.Out = oldOut
 	var output []byte
-	if buf.Len() > 0 {
-		// The captured output (kept for the cache, copied into the caller's own capture) counts against the memory budget.
-		object.MustBeOk(buf.Len() / object.ObjectSize)
-		output = buf.Bytes()
-		_, err := s.Out.Write(output)
-		if err != nil {
-			log.Warnf("output: %v", err)
+	if end := buf.Len(); end > start {
+		output = buf.Bytes()[start:end:end] // (kept for the cache: the buffer only ever grows.)
+		if !nested {
+			_, err := s.Out.Write(output)
+			if err != nil {
+				log.Warnf("output: %v", err)
+			}
 		}
 	}
 	if after != before {
@@ -814,6 +821,40 @@ func (s *State) applyFunction(name string, fn object.Object, args []object.Objec
 	s.cache.Set(function.CacheKey, args, res, output)
 	log.Debugf("Cache miss for %s %v", function.CacheKey, args)
 	return res
+}
+
+// captureBuffer holds what a chain of nested calls prints (see applyFunction). What it holds counts against the memory
+// budget: checked each time it has doubled.
+type captureBuffer struct {
+	bytes.Buffer
+	next int
+}
+
+func (b *captureBuffer) check(n int) {
+	if l := b.Len() + n; l > b.next {
+		object.MustBeOk(2 * l / object.ObjectSize) // (the buffer doubles when it grows.)
+		b.next = 2 * l
+	}
+}
+
+func (b *captureBuffer) Write(p []byte) (int, error) {
+	b.check(len(p))
+	return b.Buffer.Write(p)
+}
+
+func (b *captureBuffer) WriteString(str string) (int, error) {
+	b.check(len(str))
+	return b.Buffer.WriteString(str)
+}
+
+func (b *captureBuffer) WriteByte(c byte) error {
+	b.check(1)
+	return b.Buffer.WriteByte(c)
+}
+
+func (b *captureBuffer) WriteRune(r rune) (int, error) {
+	b.check(4) //nolint:mnd // utf8.UTFMax
+	return b.Buffer.WriteRune(r)
 }
 
 func (s *State) extendFunctionEnv(
